@@ -61,6 +61,7 @@ type Server struct {
 	StartTime   time.Duration
 	ReplMon     bool
 	ReplMonTS   float64
+	Hung        bool              // accepts connections but never answers: statements hang to the caller\'s deadline
 	Dubious     bool              // connections from other hosts are refused with error 1040 (too many connections)
 	FailOps     map[string]uint16 // statements of these kinds (Classify op names) fail with the MySQL error number
 	StuckSQL    bool              // the SQL thread runs but applies nothing
